@@ -27,6 +27,18 @@ int sigaltstack(const stack_t *ss, stack_t *oss)
 }
 #endif
 
+/* ABT_info_print_thread_stacks_in_pool() calls fflush(0).  An execution is a
+ * forked child of the explorer, and the explorer's result file (--out) still
+ * holds its unflushed JSON header in the stdio buffer the child inherited: a
+ * flush of *all* streams in the child writes that header a second time and
+ * corrupts the result file (see notes/C18-engine.md #5).  The executable's
+ * definition of fflush() takes precedence over libc's: flushing one stream
+ * works as usual, "flush everything" is a no-op in this driver. */
+int fflush(FILE *f)
+{
+    return f ? fflush_unlocked(f) : 0;
+}
+
 #define SENT(type) ((type)(uintptr_t)0x5e5e5e5e5e5e0ull) /* untouched marker */
 
 /* ---------------------------------------------------------------- world */
